@@ -275,6 +275,68 @@ pub fn main(args: &[String]) {
             let _ = registrar.join();
             println!("{}", out.join(" "));
         }
+        // deeprace <threads> <iters> : every thread parses and evaluates a deeply nested (but legal) expression over and over;
+        // nesting limits are per parse, not per process: every call must succeed
+        "deeprace" => {
+            let n: usize = args[1].parse().unwrap();
+            let iters: usize = args[2].parse().unwrap();
+            let text = format!("{}3 + 4{}", "(".repeat(100), ")".repeat(100));
+            let barrier = Arc::new(Barrier::new(n));
+            let mut hs = Vec::new();
+            for _ in 0..n {
+                let (b, t) = (barrier.clone(), text.clone());
+                hs.push(std::thread::Builder::new().stack_size(8 << 20).spawn(move || {
+                    b.wait();
+                    for _ in 0..iters {
+                        let r = show(execute(&t, Context::new()));
+                        if r != "ok:Number(7)" {
+                            return r;
+                        }
+                        if parse_expression(&t).is_err() {
+                            return "parse-err".to_string();
+                        }
+                    }
+                    "ok".to_string()
+                }).unwrap());
+            }
+            let out: Vec<String> = hs.into_iter().map(|h| h.join().unwrap_or_else(|_| "panic".into())).collect();
+            println!("{}", out.join(" "));
+        }
+        // rereg-prec <rounds> : one thread registers the infix operator `times` again and again, alternating its precedence
+        // between 130 (tighter than +) and 100 (looser), and after each registration has returned evaluates `1 + 2 times 3`
+        // itself: it must see its own latest registration (7 or 9); six threads parse expressions using `times` meanwhile
+        "rereg-prec" => {
+            let rounds: usize = args[1].parse().unwrap();
+            let mul = || Arc::new(|a: Value, b: Value| Ok(Value::from(a.decimal()? * b.decimal()?)));
+            register_infix_op("times", 130, InfixOpType::CALC, InfixOpAssociativity::LEFT, mul());
+            let stop = Arc::new(AtomicBool::new(false));
+            let mut hs = Vec::new();
+            for _ in 0..6 {
+                let st = stop.clone();
+                hs.push(std::thread::spawn(move || {
+                    let mut bad = 0usize;
+                    while !st.load(Ordering::SeqCst) {
+                        if parse_expression("1 + 2 times 3 + 4 times 5").is_err() {
+                            bad += 1;
+                        }
+                    }
+                    bad
+                }));
+            }
+            let mut verdict = "ok".to_string();
+            for k in 0..rounds {
+                let (p, want) = if k % 2 == 0 { (100, "ok:Number(9)") } else { (130, "ok:Number(7)") };
+                register_infix_op("times", p, InfixOpType::CALC, InfixOpAssociativity::LEFT, mul());
+                let r = show(execute("1 + 2 times 3", Context::new()));
+                if r != want {
+                    verdict = format!("round{}:prec{}=>{}", k, p, r);
+                    break;
+                }
+            }
+            stop.store(true, Ordering::SeqCst);
+            let bad: usize = hs.into_iter().map(|h| h.join().unwrap_or(1)).sum();
+            println!("{} parse-errors={}", verdict, bad);
+        }
         _ => println!("badsched"),
     }
 }
